@@ -22,7 +22,10 @@ Inductive case :=
 (* race-detector build: successive answers rss handed to the refresh goroutine while readers
    call Hosts(); seqs = per reader the lists it saw (consecutive repetitions removed);
    observed_race = the race detector reported a data race with a lura frame *)
-| CRace (scheme : string) (rss : list (list srv)) (seqs : list (list (list string))) (observed_race : bool).
+| CRace (scheme : string) (rss : list (list srv)) (seqs : list (list (list string))) (observed_race : bool)
+(* unit level: sd.NewRandomFixedSubscriber(hosts) after rand.Seed(s); perm = what rand.Perm(len)
+   returns after the same seed; obs = the list it built *)
+| CShuffle (hosts : list string) (perm : list nat) (obs : list string).
 
 Definition check_case (c : case) : bool * bool :=
   match c with
@@ -39,6 +42,10 @@ Definition check_case (c : case) : bool * bool :=
       (negb race &&
        forallb (in_order (fun rs o => perm_b o (resolve (eff_scheme scheme) rs)) rss) seqs,
        spec_race_b (eff_scheme scheme) rss seqs race)
+  | CShuffle hosts perm obs =>
+      (* the model of the shuffle, exactly; and the contract of rand.Perm the theorem assumes *)
+      (is_perm_b (List.length hosts) perm && list_eqb str_eqb obs (shuffle_with perm hosts),
+       perm_b obs hosts)
   end.
 
 Fixpoint failing (i : nat) (cs : list case) : list verdict :=
